@@ -54,9 +54,29 @@ type c17Scenario struct {
 type c17Updater struct {
 	mu      sync.Mutex
 	reports []c17Report
+	slow    time.Duration // a consumer (a user interface) that takes this long over its first progress report of each message
+	slowed  map[string]bool
 }
 
 func (u *c17Updater) UpdateStatus(s fbb.Status) {
+	if u.slow > 0 && !s.Done {
+		mid := ""
+		if s.Receiving != nil {
+			mid = "r" + s.Receiving.MID()
+		} else if s.Sending != nil {
+			mid = "s" + s.Sending.MID()
+		}
+		u.mu.Lock()
+		first := !u.slowed[mid]
+		if u.slowed == nil {
+			u.slowed = map[string]bool{}
+		}
+		u.slowed[mid] = true
+		u.mu.Unlock()
+		if first {
+			time.Sleep(u.slow)
+		}
+	}
 	r := c17Report{Transferred: s.BytesTransferred, Total: s.BytesTotal, Done: s.Done}
 	switch {
 	case s.Sending != nil:
@@ -210,6 +230,9 @@ func c17Child(args []string) {
 			ha, hb := ca.newHandler(), cb.newHandler()
 			sa, sb := ca.newSession(ha), cb.newSession(hb)
 			ua, ub := &c17Updater{}, &c17Updater{}
+			if sc.ID%4 == 1 {
+				ua.slow, ub.slow = 80*time.Millisecond, 80*time.Millisecond
+			}
 			sa.SetStatusUpdater(ua)
 			sb.SetStatusUpdater(ub)
 			a0, b0 := memPipe(0)
@@ -269,7 +292,7 @@ func c17Child(args []string) {
 
 func runC17(ctx *Ctx) error {
 	res := ctx.Res
-	res.Rule = "pairs of real sessions (master with 1..3 messages, slave with 0..3) on an in-memory link whose data-block writes are delayed by 0, 2, 30, 110 or 300 ms (the last longer than the 250 ms reporting period), half of them on a transport that reports a transmit-buffer length and implements Flush; both sides with a StatusUpdater that records every report. The sessions run in a child process of the -race build of this harness with GORACE log files: every data race the detector reports whose stacks pass through /repo is a violation. The recorded reports are judged by the extracted Coq judge session_ok (per direction: the reports split at the Done reports must be one group per transferred message, each report naming that message, between 0 and its compressed size computed independently from Message.Proposal, the Done report last and only once) and by the harness: all Done reports delivered by the time Exchange returned, no report after it. Non-trivial: scenario with a delay of at least 30 ms (reports from the ticker); distinct by scenario."
+	res.Rule = "pairs of real sessions (master with 1..3 messages, slave with 0..3) on an in-memory link whose data-block writes are delayed by 0, 2, 30, 110 or 300 ms (the last longer than the 250 ms reporting period), half of them on a transport that reports a transmit-buffer length and implements Flush; both sides with a StatusUpdater that records every report (in a quarter of the pairs one that takes 80 ms over its first progress report of each message, like a user interface). The sessions run in a child process of the -race build of this harness with GORACE log files: every data race the detector reports whose stacks pass through /repo is a violation. The recorded reports are judged by the extracted Coq judge session_ok (per direction: the reports split at the Done reports must be one group per transferred message, each report naming that message, between 0 and its compressed size computed independently from Message.Proposal, the Done report last and only once) and by the harness: all Done reports delivered by the time Exchange returned, no report after it. Non-trivial: scenario with a delay of at least 30 ms (reports from the ticker); distinct by scenario."
 	dir, err := os.MkdirTemp("", "verif-c17-")
 	if err != nil {
 		return err
